@@ -343,6 +343,8 @@ def bytesum_source(F, A, t):
             return None
         itr = x[1][1][2][0]
         itr = itr[1] if itr[0] == "ref" else itr
+        # the iterator is advanced by next() in the loop: what is walked is its value on entry to the loop
+        itr = an.loop_entry_value(A, itr, next(iter({h for (_, h) in be})), loop)
         for _ in range(3):
             if itr[0] == "call" and len(itr[2]) == 1 and ("IntoIterator" in str(itr[1]) or cn(itr[1]) == "core::slice::iter"):
                 itr = itr[2][0]
